@@ -32,7 +32,7 @@ CLAIMED = {
          'containers included: unflatten(flatten(g)) is a graph isomorphism (one fresh cell per reachable object, references renamed by an injective numbering), hence the same paths exist '
          'with the same shapes and two paths reach one object afterwards iff they did before; a filtered split is a partition by first match (raises when not exhaustive); merge does not '
          'depend on the order of the states; flatten emits leaves in strictly increasing path order when sibling keys are sorted, so a split merged back in any order is the round trip; '
-         'update changes no node and keeps every Variable at its location and type, last write wins; pop (PARTIAL) only removes attributes holding selected Variables. Tied to /repo per '
+         '(graphdef, leaves) is a canonical form (invariant under any injective renaming of the objects; flatten after unflatten is the identity); update changes no node and keeps every Variable at its location and type, last write wins; pop (PARTIAL) only removes attributes holding selected Variables. Tied to /repo per '
          'run: random graphs built from real nnx Modules/Variables; graphdef, leaves, buckets, update and pop results compared in Coq; isomorphism / freshness / clone / identity by an '
          'independent canonical-form oracle.',
     note='Trusted: Coq kernel, vm_compute, harness (graph encoder impl_graph.py, canonical form), jaxcompat. Containers (list/tuple/dict) have value semantics in model and code: a container '
@@ -41,18 +41,20 @@ CLAIMED = {
     technique='Coq proof (joint flatten/unflatten invariant by fuel induction, partition and sorting lemmas) + per-run model-vs-implementation correspondence by vm_compute',
     ref='DESIGN.md section 5, C03'),
   'C04': dict(
-    text='PARTIAL. A Gallina model of the UpdateContext protocol behind nnx.jit / remat / cond / switch / while_loop / fori_loop / cached_partial (outer split with one ref_index for all '
-         'arguments, inner merge, inner split carrying outer indices, outer merge re-using the caller\'s objects) and of a language of functions on object graphs (reads, Variable updates '
-         'with int64 arithmetic, setattr of statics / aliases / new Variables / new nodes, delattr). Proved for every heap, arguments and graph left by the function: the inner copies alias '
-         'exactly like the caller\'s objects, across arguments too; the write-back puts an isomorphic copy of the inner graph into the caller\'s heap, copies go back into the very objects '
-         'they were copied from, new objects get fresh locations, nothing else is touched. Tied to /repo per run: random graphs x aliased argument tuples x functions x transforms x call '
-         'histories re-using the transformed function; the model\'s eager run and protocol run are both compared in Coq with the real eager call and the real transform (value, final graph, '
-         'which objects are the caller\'s own).',
-    note='Trusted: Coq kernel, vm_compute, harness (function interpreter, canonical form), jaxcompat, JAX tracing / lax control flow / jit cache. NOT proved: that functions of the '
-         'language cannot distinguish isomorphic heaps (the step from the three theorems to run_ctx = run_eager); decided per run by the correspondence. Loops are modelled as one protocol '
-         'run around the k-fold body. cached_partial: value updates only, graphs without array attributes (known findings F16 stale clone, F20 array attributes); F21 (aliased cached '
-         'arguments, KeyError) found by this check and fixed. pmap / shard_map / custom_vjp / eval_shape not run. No axioms.',
-    technique='Coq proof (joint invariant of inner flatten and placed unflatten by fuel induction; placement injectivity) + per-run model-vs-implementation correspondence by vm_compute',
+    text='A Gallina model of the UpdateContext protocol behind nnx.jit / remat / cond / switch / while_loop / fori_loop / cached_partial (outer split with one ref_index for all arguments, inner '
+         'merge, inner split carrying outer indices, outer merge re-using the caller\'s objects) and of a language of functions on object graphs (reads, Variable updates with int64 arithmetic, '
+         'setattr of statics / aliases / new Variables / new nodes, delattr). PROVED for every function of the language, heap, tuple of possibly aliased arguments and number of applications '
+         'of the body: whenever the eager run and the protocol run both complete they are observed alike -- same returned value, same graph of (arguments, returned object) as graphdef + '
+         'leaves, and every object is the same one of the caller\'s original objects in both (C04_ctx_equals_eager; value-only variant for cond / switch / loops). The proof goes through a '
+         'step-by-step simulation between the caller\'s heap and the inner copy, the write-back isomorphism (copies return into the very objects they were copied from, new objects get fresh '
+         'locations, nothing else is touched) and the invariance of flatten under isomorphism. Tied to /repo per run: random graphs x aliased argument tuples (positional and keyword) x '
+         'functions x transforms x call histories re-using the transformed function; the model\'s eager and protocol runs are both compared in Coq with the real eager call and the real transform.',
+    note='Trusted: Coq kernel, vm_compute, harness (function interpreter, canonical form), jaxcompat, JAX tracing / lax control flow / jit cache. NOT proved: that the protocol run completes '
+         'whenever the eager run does (fuel sufficiency of the model\'s flatten) and that JAX evaluates the traced function like Python; decided per run. Loops are modelled as one protocol run '
+         'around the k-fold body. cached_partial: value updates, and exactly-one-structural-edit cases that must raise; graphs without array attributes (known findings F16 stale clone, F20 '
+         'array attributes); F21 (aliased cached arguments, KeyError) found by this check and fixed. pmap / shard_map / custom_vjp / eval_shape not run. No axioms.',
+    technique='Coq proof (simulation between the caller\'s heap and the inner copy by induction over the function body; joint invariant of flatten and placed unflatten by fuel induction; '
+              'invariance of flatten under heap isomorphism) + per-run model-vs-implementation correspondence by vm_compute',
     ref='DESIGN.md section 5, C04'),
   'C05': dict(
     text='PARTIAL. Proved, for every transformed function, filters and variables, about a Gallina model of lift.pack (the building block of all lifted transforms: group_collections, inner '
